@@ -468,11 +468,47 @@ def stepPipe (pi ver hexes impl : String) : String :=
     | _, _ => "bad-hex"
   | _, _ => "bad-case"
 
+/-- the Conn codec does not distinguish null from empty -/
+partial def denullVal : Val → Val
+  | .bytes none => .bytes (some [])
+  | .arr none => .arr (some [])
+  | .arr (some xs) => .arr (some (xs.map denullVal))
+  | .struct vs tvs => .struct (vs.map denullVal) (tvs.map denullVal)
+  | v => v
+
+def unTok (s : String) : Option Bytes := if s == "-" then some [] else ofHex s
+
+/-- `legread <i> <ver> <type> <body>	<remain> <rewritten>`: the hand-written response reader followed by the same
+type's writer.  Model: decode the body under the GOLDEN response schema; the reader must leave 0 bytes and the
+rewritten bytes must decode (entirely) to the same value up to null ~ empty. -/
+def stepLegRead (i ver body impl : String) : String :=
+  match getCase i ver, unTok body with
+  | some c, some bs =>
+    let g := (refTy c).1
+    match decode cfg g ⟨bs, bs.length⟩ with
+    | .ok v d =>
+      if d.remain != 0 then answer "golden-decode-leaves-bytes" false else
+      let want := encode (denullStr g) (denullVal v)
+      let ok := match words impl with
+        | [rem, out] =>
+          rem == "0" &&
+            (match unTok out with
+             | some os =>
+               (match decode cfg g ⟨os, os.length⟩ with
+                | .ok v' d' => d'.remain == 0 && Val.beq (denullVal v) (denullVal v')
+                | _ => false)
+             | none => false)
+        | _ => false
+      answer (if ok then impl else s!"0 {hexTok want}") ok
+    | _ => answer "golden-decode-fails" false
+  | _, _ => "bad-case"
+
 def step (line : String) : String :=
   match line.splitOn " => " with
   | [req, impl] =>
     match words req with
     | ["mal", pi, ver, hexes] => if pi.startsWith "P" then stepPipe pi ver hexes impl else stepMain line
+    | ["legread", i, ver, _name, body] => stepLegRead i ver body impl
     | "marshal" :: j :: ver :: rest => stepMarshal "marshal" j ver rest impl
     | "unmarshal" :: j :: ver :: rest => stepMarshal "unmarshal" j ver rest impl
     | _ => stepMain line
